@@ -27,6 +27,7 @@ pub const SZ_GRID: u32 = 0;
 pub const SZ_TINY: u32 = 1;
 pub const SZ_SMALL: u32 = 2;
 pub const SZ_MEDIUM: u32 = 3;
+pub const SZ_LARGE: u32 = 4; // 20..32 layers: searches with hundreds / thousands of sub-problems
 pub const F_DEPTH_FREE: u32 = 1 << 4;
 pub const F_IRRELEVANCE: u32 = 1 << 5; // implies depth free
 pub const F_NO_BONUS: u32 = 1 << 6;
@@ -74,6 +75,7 @@ impl TInst {
             SZ_GRID => (3, 2, 2, 1),
             SZ_TINY => (rng.range(3, 6) as usize, rng.range(2, 4) as usize, rng.range(2, 3) as usize, 4),
             SZ_SMALL => (rng.range(5, 9) as usize, rng.range(2, 5) as usize, rng.range(2, 3) as usize, 6),
+            SZ_LARGE => (rng.range(20, 32) as usize, rng.range(4, 8) as usize, rng.range(2, 3) as usize, 9),
             _ => (rng.range(8, 12) as usize, rng.range(3, 6) as usize, rng.range(2, 4) as usize, 9),
         };
         let (s, c) = if reconv { (rng.range(2, 3) as usize, 2) } else { (s, c) };
